@@ -1,6 +1,6 @@
 (* C17 — Notify long-poll never waits for a change that already happened. *)
 From Coq Require Import List NArith Bool.
-From RV Require Import C17.Model C17.Proofs C17.Spec.
+From RV Require Import C17.Model C17.Proofs C17.Spec C17.SpecProofs.
 Import ListNotations.
 Local Open Scope N_scope.
 
@@ -27,6 +27,14 @@ Theorem C17_old_order_refuted :
     stuck s = true /\ ver s <> 5.
 Proof. exact old_order_refuted. Qed.
 
+(* the executable oracle accepts what the model observes at the end of every schedule that respects the
+   writer's program order and leaves the handler quiescent (returned, or stuck), and the case checker
+   returns 0 on it *)
+Theorem C17_model_satisfies_spec : forall c, writer_ok false (c_events c) = true ->
+  pc_done (model_final c) || stuck (model_final c) = true ->
+  spec_okb (model_case c) = true /\ check_case (model_case c) = 0.
+Proof. exact model_satisfies_spec. Qed.
+
 (* the oracle is satisfied by the model at the end of every quiescent schedule in which the handler was polled last *)
 Example C17_nonvacuous :
   let s := run true (Some 5) (start 5 0) [H; H; Install; H; Notify; H] in
@@ -38,3 +46,6 @@ Check C17_blocks_only_while_current : forall presented v g evs,
   writer_ok false evs = true ->
   let s := run true presented (start v g) evs in
   stuck s = true -> presented = Some (ver s).
+Check C17_model_satisfies_spec : forall c, writer_ok false (c_events c) = true ->
+  pc_done (model_final c) || stuck (model_final c) = true ->
+  spec_okb (model_case c) = true /\ check_case (model_case c) = 0.
